@@ -428,7 +428,10 @@ pub fn plans(prop: &str, tier: &str) -> Vec<Plan> {
             o.variants = vec![(false, false), (true, false), (false, true), (true, true)];
             // timestamps pinned per template are not used: the (id, template) table gives ties (#2,#3)
             // and a later #1; an amended / replenished / re-queued order keeps its timestamp
-            vec![Plan { cfg: o, depth: d(4, 6) }]
+            let mut bk = sc_bulk(prop);
+            bk.check.c11 = true;
+            bk.variants = vec![(false, false), (true, false), (false, true), (true, true)];
+            vec![Plan { cfg: bk, depth: d(3, 4) }, Plan { cfg: o, depth: d(4, 6) }]
         }
         "C15" => {
             // positive quantities only
